@@ -18,6 +18,7 @@ from . import common, gen_dt
 
 ID = "C12"
 BUDGET = {"quick": 40.0, "thorough": 600.0}
+RUNS = {"quick": 24000}
 
 DT_UNITS = ["second", "minute", "hour", "day", "week", "month", "year", "decade", "century"]
 D_UNITS = ["day", "week", "month", "year", "decade", "century"]
